@@ -30,6 +30,7 @@ from .exceptions import (
     CommentCreateError,
     CommentParseError,
     MissingReuseInfoError,
+    TemplateRenderError,
 )
 from .extract import contains_reuse_info, extract_reuse_info
 from .i18n import _
@@ -63,17 +64,22 @@ def _create_new_header(
         CommentCreateError: if a comment could not be created.
         MissingReuseInfoError: if the generated comment is missing SPDX
             information.
+        TemplateRenderError: if the template could not be rendered.
     """
     if template is None:
         template = DEFAULT_TEMPLATE
     if style is None:
         style = cast(Type[CommentStyle], PythonCommentStyle)
 
-    rendered = template.render(
-        copyright_lines=sorted(reuse_info.copyright_lines),
-        contributor_lines=sorted(reuse_info.contributor_lines),
-        spdx_expressions=sorted(map(str, reuse_info.spdx_expressions)),
-    ).strip("\n")
+    try:
+        rendered = template.render(
+            copyright_lines=sorted(reuse_info.copyright_lines),
+            contributor_lines=sorted(reuse_info.contributor_lines),
+            spdx_expressions=sorted(map(str, reuse_info.spdx_expressions)),
+        ).strip("\n")
+    # A template is a program of its own. Rendering it can fail in any way.
+    except Exception as error:  # pylint: disable=broad-exception-caught
+        raise TemplateRenderError(str(error)) from error
 
     if template_is_commented:
         result = rendered
